@@ -1373,6 +1373,15 @@ func (in *interp) execLoop(st ast.Stmt, s *State) []*State {
 					reverse = true
 				}
 			}
+			// for i := len(L); i > 0; i-- { … L[i-1] … }: the same walk from the end
+			if c, ok := unparen(as.Rhs[0]).(*ast.CallExpr); ok && len(c.Args) == 1 {
+				if id, ok := c.Fun.(*ast.Ident); ok && id.Name == "len" {
+					if post, ok := x.Post.(*ast.IncDecStmt); ok && post.Tok == token.DEC {
+						listExpr = c.Args[0]
+						reverse = true
+					}
+				}
+			}
 		}
 	}
 	if listExpr == nil {
@@ -1384,9 +1393,20 @@ func (in *interp) execLoop(st ast.Stmt, s *State) []*State {
 	// which fields of the elements does the body assign, and which l-value accumulates the chain?
 	var fields []string
 	var accExpr ast.Expr
+	var localAcc ast.Expr
 	ast.Inspect(body, func(n ast.Node) bool {
 		if as, ok := n.(*ast.AssignStmt); ok {
 			for i, lh := range as.Lhs {
+				// a local declared before the loop that the body re-assigns: the chain built so far
+				// (the accumulator of a fold moved into a helper: base = link)
+				if id, ok := unparen(lh).(*ast.Ident); ok && as.Tok == token.ASSIGN {
+					if o := info.Uses[id]; o != nil && o.Pos() < body.Pos() {
+						if _, isVar := o.(*types.Var); isVar {
+							localAcc = lh
+						}
+					}
+					continue
+				}
 				se, ok := unparen(lh).(*ast.SelectorExpr)
 				if !ok {
 					continue
@@ -1404,6 +1424,9 @@ func (in *interp) execLoop(st ast.Stmt, s *State) []*State {
 		}
 		return true
 	})
+	if accExpr == nil {
+		accExpr = localAcc
+	}
 	if accExpr == nil {
 		in.undec(s, st, "loop without an accumulator")
 		return []*State{s}
